@@ -70,7 +70,7 @@ func cmdVerify(args []string) {
 	}
 	for _, k := range prog.contractKeysSorted() {
 		fc := prog.cs.Funcs[k]
-		if fc.Extern {
+		if fc.Extern || fc.noUnit() {
 			continue
 		}
 		if len(want) > 0 && !want[k] {
